@@ -34,9 +34,17 @@ def _case(draw):
     if n_roots:
         n = max(n, n_roots)
     mt = draw(gen.st_mtree(indices=list(range(n)), n_roots=n_roots))
-    if draw(st.sampled_from([True, False])):
+    dup = 0
+    if draw(st.integers(0, 4)) == 0:
+        # two copies of one sub-tree side by side, holding data points with identical values: distinct clones whose
+        # likelihood vectors are bit-identical (two mutations with the same read counts are common in real input)
+        dup = draw(st.integers(2, 3))
+        half = draw(gen.st_mtree(indices=list(range(dup)), min_clones=1))
+        k = len(half["blocks"])
+        mt = dict(blocks=[list(b) for b in half["blocks"]] + [[i + dup for i in b] for b in half["blocks"]], parent=list(half["parent"]) + [(-1 if q == -1 else q + k) for q in half["parent"]], outliers=[])
+    elif draw(st.sampled_from([True, False])):
         mt = draw(gen.st_with_empty_clones(mt))
-    return dict(mtree=mt, G=G, dims=draw(st.sampled_from([1, 2, 3])), values=draw(gen.st_values_spec(regimes=("ties", "moderate", "spiky", "flat"))), sib=draw(st.lists(st.integers(0, 7), min_size=1, max_size=4)))
+    return dict(dup=dup, mtree=mt, G=G, dims=draw(st.sampled_from([1, 2, 3])), values=draw(gen.st_values_spec(regimes=("ties", "moderate", "spiky", "flat"))), sib=draw(st.lists(st.integers(0, 7), min_size=1, max_size=4)))
 
 
 def strategy(ctx):
@@ -61,6 +69,8 @@ def evaluate(case):
     n = max(mt.all_data()) + 1 if mt.all_data() else 1
     vs = case["values"]
     values = gen.make_values(n, dims, G, vs["seed"], vs["regime"], vs["scale"])
+    if case.get("dup"):
+        values = {i: values[i % case["dup"]].copy() for i in range(n)}
     data = gen.make_datapoints(values)
     tags = dict(G=G, dims=dims, k=mt.k, regime=vs["regime"], empty=any(len(b) == 0 for b in mt.blocks))
     try:
@@ -137,13 +147,21 @@ def evaluate(case):
             binding = True
     # the same values as they are WRITTEN to the results table (map command on a one-entry trace of this tree)
     if case.get("via_table", True) and G <= 40 and sorted(mt.all_data()) == list(range(n)):
-        _table_path(mt, tree, data, values, (dims, G), tags)
+        t2 = tree
+        if (case.get("sib") or [0])[0] % 2 == 0:
+            # a run records its trees after relabel_nodes(): pre-order names, so clone 0 is a top-level clone that
+            # usually HAS children (creation-order names make clone 0 a leaf most of the time)
+            t2 = tree.copy()
+            t2.relabel_nodes()
+        _table_path(mt, t2, data, values, (dims, G), tags)
     shape = any(len(mt.children(i)) >= 2 for i in range(-1, mt.k)) or any(mt.depth(i) >= 1 for i in range(mt.k))
     classes = ["grid:%s" % ("dp" if G > 7 else "brute"), "regime:" + vs["regime"], "dims=%d" % dims]
     if tags["empty"]:
         classes.append("empty-clone")
     if binding:
         classes.append("constraint-binds")
+    if case.get("dup"):
+        classes.append("twin-subtrees-with-identical-vectors")
     if any(len(mt.children(i)) >= 3 for i in range(-1, mt.k)):
         classes.append("children>=3")
     return Outcome(nontrivial=shape and binding, classes=tuple(classes), key=[case["mtree"], G, dims, vs], info=dict(mtree=case["mtree"], G=G, dims=dims, values=vs))
